@@ -401,6 +401,91 @@ def shard_threads(P, idx, per_thread, prob, seed):
     thread_workload(P, "%s-%s" % (seed, idx), 8, per_thread, prob)
 
 
+# ---- threads, cold start: the FIRST use of the library in a process is the concurrent one ---------
+def cold_pool(seed):
+    import random
+    rng = random.Random("C19-cold-%s" % seed)
+    pool = []
+    for ver in T.VERSIONS:
+        for _ in range(6):
+            p, m, s = V.rand_vector(rng, ver, p_opt=rng.choice((0.2, 0.9)))
+            pool.append((ver, s))
+    return pool
+
+
+def cold_child(seed, n_threads, per_thread, prob):
+    """Runs in a fresh interpreter: the package is imported, nothing has been constructed.  All
+    threads leave a barrier together and observe vectors (every version first in some thread);
+    afterwards the same inputs are observed single-threaded.  Prints one JSON document."""
+    import random
+    pool = cold_pool(seed)
+    results, errors = [], []
+    inj = YieldInjector(prob, seed)
+    have_mon = hasattr(sys, "monitoring")
+    barrier = threading.Barrier(n_threads)
+
+    def worker(tid):
+        r = random.Random("C19-cold-%s-%s" % (seed, tid))
+        order = [pool[(tid * 6 + j) % len(pool)] for j in range(2)] + [pool[r.randrange(len(pool))] for _ in range(per_thread)]
+        barrier.wait()
+        for k in order:
+            try:
+                results.append((tid, list(k), probe19.observe_vector(*k)))
+            except BaseException as e:  # noqa
+                errors.append([tid, list(k), repr(e)])
+
+    bootstrap.lib()
+    sys.setswitchinterval(1e-5)
+    if have_mon:
+        inj.start()
+    ths = [threading.Thread(target=worker, args=(i,)) for i in range(n_threads)]
+    for t in ths:
+        t.start()
+    for t in ths:
+        t.join()
+    if have_mon:
+        inj.stop()
+    after = [[list(k), probe19.observe_vector(*k)] for k in pool]
+    sys.stdout.write(json.dumps({"results": results, "errors": errors, "after": after, "events": inj.events, "switches": inj.switches,
+                                 "points": sorted(inj.points)}))
+
+
+def shard_threads_cold(P, idx, per_thread, prob, seed):
+    tag = "%s-%s" % (seed, idx)
+    env = dict(os.environ)
+    env.update({"PYTHONDONTWRITEBYTECODE": "1", "PYTHONIOENCODING": "utf-8"})
+    code = "from vmon.monitors import C19; C19.cold_child(%r, 8, %d, %r)" % (tag, per_thread, prob)
+    p = subprocess.run([sys.executable, "-B", "-c", code], cwd=bootstrap.VERIF, env=env, stdout=subprocess.PIPE,
+                       stderr=subprocess.PIPE, timeout=600)
+    case = {"kind": "threads-cold", "seed": tag, "threads": 8, "per_thread": per_thread, "yield_probability": prob}
+    P.evaluations += 1
+    P.dist(("threads-cold", tag))
+    if p.returncode != 0:
+        P.notes.append("INCONCLUSIVE:cold-start thread child failed: %s" % p.stderr.decode("utf-8", "replace")[-300:])
+        return
+    out = json.loads(p.stdout.decode("utf-8"))
+    P.ev("threads-cold-start")
+    # the reference: the same inputs observed here, single-threaded (this process has a history of its
+    # own, which the history monitor judges; any disagreement between the three is a violation)
+    base = {tuple(k): json.loads(json.dumps(probe19.observe_vector(*k))) for k in cold_pool(tag)}
+    for tid, k, e in out["errors"][:3]:
+        P.violation("threads", "C19:threads:cold-start:worker-raised:%s" % e.split("(")[0], case, probe_input=k, error=e)
+    bad = [(tid, k, rec) for tid, k, rec in out["results"] if rec != base[tuple(k)]]
+    for tid, k, rec in bad[:3]:
+        fields = [f for f in rec if isinstance(base[tuple(k)], dict) and rec.get(f) != base[tuple(k)].get(f)]
+        P.violation("threads", "C19:threads:cold-start:record-differs-from-single-threaded:%s" % "+".join(fields[:2]), case,
+                    probe_input=k, single_threaded=base[tuple(k)], concurrent=rec)
+    for k, rec in out["after"]:
+        if rec != base[tuple(k)]:
+            P.violation("threads", "C19:threads:cold-start:later-single-threaded-record-differs", case, probe_input=k,
+                        reference=base[tuple(k)], after_concurrent_first_use=rec)
+            break
+    P.stratum("threads-cold:processes")
+    P.stratum("threads-cold:records-compared", len(out["results"]))
+    P.stratum("threads-cold:cross-thread-switches-inside-library", out["switches"])
+    P.addset("thread_switch_points", [tuple(x) for x in out["points"]])
+
+
 # ---- decimal contexts ------------------------------------------------------------
 PRECS = [(28, 29, 40, 100)]
 ROUNDINGS = [decimal.ROUND_CEILING, decimal.ROUND_DOWN, decimal.ROUND_FLOOR, decimal.ROUND_HALF_DOWN, decimal.ROUND_HALF_EVEN,
@@ -452,6 +537,13 @@ def replay(R, w):
         shard_decimal(R.P, case["rounding"], seed, base)
     elif case["kind"] == "threads":
         thread_workload(R.P, case["seed"], case["threads"], case["per_thread"], case["yield_probability"])
+    elif case["kind"] == "threads-cold":
+        # thread schedules are sampled, not recorded: the same seeded workload is repeated a few times
+        tag, _, idx = str(case["seed"]).rpartition("-")
+        for _ in range(5):
+            shard_threads_cold(R.P, idx, case["per_thread"], case["yield_probability"], tag)
+            if R.P.violations:
+                break
     elif case["kind"] == "hashseed":
         other, _ = fresh_probe(seed, case["hashseed"])
         R.P.ev("hash-seed")
@@ -461,7 +553,7 @@ def replay(R, w):
 
 def run(R):
     R.rule = RULE
-    R.require("history", "global-state", "silent", "aliasing", "threads", "hash-seed", "decimal")
+    R.require("history", "global-state", "silent", "aliasing", "threads", "threads-cold-start", "hash-seed", "decimal")
     R.assumptions = ["decimal signal FLAGS are not part of the fingerprint (every decimal operation sets them by design)",
                      "thread interleavings are sampled (GIL switch interval 10 us + injected yields at library lines)",
                      "fresh-process baseline under PYTHONHASHSEED=0 with the default decimal context"]
@@ -490,6 +582,7 @@ def run(R):
     R.pmap("shard_history", [(i, R.pick(3, 120), R.pick(150, 500), R.seed, base) for i in range(16)])
     # 3 threads
     R.pmap("shard_threads", [(i, R.pick(12, 400), 0.02, R.seed) for i in range(R.pick(8, 32))])
+    R.pmap("shard_threads_cold", [(i, R.pick(6, 40), 0.02, R.seed) for i in range(R.pick(8, 64))])
     # 4 hash seeds
     seeds = ["1", "2", "12345", "random"] if R.quick else [str(i) for i in range(1, 25)] + ["12345", "4294967295"] + ["random"] * 14
     import concurrent.futures
